@@ -162,8 +162,7 @@ class Ctx:
         if workers is None:
             workers = "1" if (simulate or deque) else "auto"
         cmd = ["java", "-XX:+UseParallelGC", "-Xss64m"]
-        if heap:
-            cmd.append("-Xmx%s" % heap)
+        cmd.append("-Xmx%s" % (heap or "6g"))
         if deque:
             cmd.append("-Dtlc2.tool.queue.IStateQueue=StateDeque")
         cmd += ["-cp", "/opt/veriftools/tla/tla2tools.jar:/opt/veriftools/tla/CommunityModules-deps.jar",
